@@ -39,7 +39,7 @@ type replySpec struct {
 	status   int
 	hdrs     [][2]string
 	bodyLen  int
-	trailers string // "", "announced", "unannounced"
+	trailers string // "", "announced", "unannounced", "announced-three", "announced-and-unannounced"
 }
 
 var hopList = []string{"Alt-Svc", "Alternate-Protocol", "Connection", "Keep-Alive", "Proxy-Authenticate", "Proxy-Authorization", "Proxy-Connection", "Te", "Trailer", "Transfer-Encoding", "Upgrade"}
@@ -92,6 +92,12 @@ func (t *recRT) RoundTrip(r *http.Request) (*http.Response, error) {
 		resp.Body = &trailerBody{Reader: bytes.NewReader(payload), resp: resp, set: http.Header{"X-Trail": {"tv"}}}
 	case "unannounced":
 		resp.Body = &trailerBody{Reader: bytes.NewReader(payload), resp: resp, set: http.Header{"X-Late": {"lv"}}}
+	case "announced-three":
+		resp.Trailer = http.Header{"X-Trail": nil, "X-Trail-B": nil, "X-Trail-C": nil}
+		resp.Body = &trailerBody{Reader: bytes.NewReader(payload), resp: resp, set: http.Header{"X-Trail": {"tv"}, "X-Trail-B": {"tb"}, "X-Trail-C": {"tc"}}}
+	case "announced-and-unannounced":
+		resp.Trailer = http.Header{"X-Trail": nil, "X-Trail-B": nil}
+		resp.Body = &trailerBody{Reader: bytes.NewReader(payload), resp: resp, set: http.Header{"X-Trail": {"tv"}, "X-Trail-B": {"tb"}, "X-Late": {"lv"}}}
 	default:
 		resp.Body = io.NopCloser(bytes.NewReader(payload))
 	}
@@ -421,6 +427,10 @@ func run(rep *kit.Report, rq reqSpec, bl blockSpec, rp replySpec, retry bool) {
 			wantTr["X-Trail"] = "tv"
 		case "unannounced":
 			wantTr["X-Late"] = "lv"
+		case "announced-three":
+			wantTr["X-Trail"], wantTr["X-Trail-B"], wantTr["X-Trail-C"] = "tv", "tb", "tc"
+		case "announced-and-unannounced":
+			wantTr["X-Trail"], wantTr["X-Trail-B"], wantTr["X-Late"] = "tv", "tb", "lv"
 		}
 		gotTr := map[string]string{}
 		for k, v := range rec.Trailer {
@@ -471,7 +481,7 @@ func applyRules(h http.Header, rules string) {
 
 func main() {
 	rep := kit.NewReport("C04", "exploration",
-		"every pair of dimensions fully crossed (others at their default) over: method x5, path spelling x5, query x3, 12 header multisets, body length x6, framing x2, base path x3, target query x2, without x2, transparent x2, header_upstream rule x5, header_downstream rule x5, reply status x4, reply headers x4, reply body x3, trailers x3; plus the retry scenario (first backend fails after reading half the body) over base path x body x framing x header rules; upstream request observed by a recording transport and client response by the strict writer, compared field by field; distinct_nontrivial = outcome classes")
+		"every pair of dimensions fully crossed (others at their default) over: method x5, path spelling x5, query x3, 12 header multisets, body length x6, framing x2, base path x3, target query x2, without x2, transparent x2, header_upstream rule x5, header_downstream rule x5, reply status x4, reply headers x4, reply body x3, trailers x5 (none, one or three announced, unannounced, both); plus the retry scenario (first backend fails after reading half the body) over base path x body x framing x header rules; upstream request observed by a recording transport and client response by the strict writer, compared field by field; distinct_nontrivial = outcome classes")
 	kit.Init()
 	kit.Log.Off.Store(true)
 	methods := []string{"GET", "POST", "PUT", "DELETE", "PATCH"}
@@ -516,7 +526,7 @@ func main() {
 		{{"Server", "backend"}, {"X-B", "1"}, {"X-B", "21"}},
 	}
 	rbodies := []int{0, 1, 65537}
-	trailers := []string{"", "announced", "unannounced"}
+	trailers := []string{"", "announced", "unannounced", "announced-three", "announced-and-unannounced"}
 	remotes := []string{"", "[2001:db8::1]:4242", "[fe80::1%eth0]:80", "203.0.113.9:1"}
 	dims := []int{len(methods), len(paths), len(queries), len(hdrSets), len(bodyLens), len(framings), len(bases), len(tqueries), len(withouts), len(transp), len(ups), len(downs), len(statuses), len(rhdrs), len(rbodies), len(trailers), len(remotes)}
 	def := make([]int, len(dims))
